@@ -17,6 +17,37 @@ def entries_key(entries):
     return sorted(json.dumps(e, sort_keys=True) for e in entries)
 
 
+def layout_class_mismatch(entries, spec, group):
+    """(class, text) if a layout entry's resource class contradicts the WGSL declaration at
+    that (@group, @binding): buffer vs texture vs sampler, uniform vs storage, read-only-ness"""
+    by = {gl.binding: gl for gl in spec.globals if gl.is_resource() and str(gl.group) == group}
+    for en in entries:
+        gl = by.get(en["binding"])
+        if gl is None:
+            continue
+        ty = en["ty"]
+        if gl.kind == "buffer":
+            if "Buffer" not in ty:
+                return ("buffer", "%s is a buffer, layout entry is %s" % (gl.name, list(ty)))
+            bt = ty["Buffer"]["ty"]
+            if gl.space == "uniform" and bt != "Uniform":
+                return ("uniform", "%s is var<uniform>, layout says %s" % (gl.name, bt))
+            if gl.space == "storage":
+                if not (isinstance(bt, dict) and "Storage" in bt):
+                    return ("storage", "%s is var<storage>, layout says %s" % (gl.name, bt))
+                ro = bt["Storage"]["read_only"]
+                if ro != (gl.access != "read_write"):
+                    return ("read-only-ness", "%s is %s, layout read_only=%s" % (
+                        gl.name, gl.access, ro))
+        elif gl.kind == "texture":
+            if "Texture" not in ty and "StorageTexture" not in ty:
+                return ("texture", "%s is a texture, layout entry is %s" % (gl.name, list(ty)))
+        elif gl.kind == "sampler":
+            if "Sampler" not in ty:
+                return ("sampler", "%s is a sampler, layout entry is %s" % (gl.name, list(ty)))
+    return None
+
+
 def main(tier, replay, t0):
     camp = probes.campaign("bind", tier)
     viol = []
@@ -128,6 +159,11 @@ def main(tier, replay, t0):
                     layouts[g]["entries"]):
                 viol.append(Violation("layout-differs", "group", "from_bindings of group %s used "
                                       "a layout different from get_bind_group_layout" % g, rp))
+            elif layout_class_mismatch(lay["entries"], c.spec, g):
+                viol.append(Violation("layout-not-of-this-group", layout_class_mismatch(
+                    lay["entries"], c.spec, g)[0], "the layout used for group %s does not "
+                    "describe that group's variables: %s" % (g, layout_class_mismatch(
+                        lay["entries"], c.spec, g)[1]), rp))
             elif sorted(e["binding"] for e in lay["entries"]) != sorted(want):
                 viol.append(Violation("layout-binding-set", "group",
                                       "layout of group %s has bindings %s, WGSL declares %s" % (
